@@ -531,6 +531,18 @@ func aritySkipNodes(exprs []*lisp.LVal) map[*lisp.LVal]bool {
 			for i := 2; i < len(sexpr.Cells); i++ {
 				skip[sexpr.Cells[i]] = true
 			}
+		case "quote":
+			// (quote X) is the longhand of 'X: everything under it is data,
+			// however much it looks like a call.
+			if ArgCount(sexpr) >= 1 {
+				markDataNodes(sexpr.Cells[1], skip)
+			}
+		case "dotimes":
+			// (dotimes (var count) body...): the control list binds var, it
+			// is not a call of a function named var.
+			if ArgCount(sexpr) >= 1 {
+				skip[sexpr.Cells[1]] = true
+			}
 		}
 		if binds, funBinding := bindingList(sexpr); binds != nil {
 			skip[binds] = true
@@ -547,6 +559,19 @@ func aritySkipNodes(exprs []*lisp.LVal) map[*lisp.LVal]bool {
 		}
 	})
 	return skip
+}
+
+// markDataNodes marks node and every list nested in it as not being a call.
+func markDataNodes(node *lisp.LVal, skip map[*lisp.LVal]bool) {
+	if node == nil {
+		return
+	}
+	if node.Type == lisp.LSExpr {
+		skip[node] = true
+	}
+	for _, c := range node.Cells {
+		markDataNodes(c, skip)
+	}
 }
 
 // aritySpec defines the min/max argument count for a function.
